@@ -203,6 +203,9 @@ func (g *gen) refString(from string, t target) string {
 }
 
 func (g *gen) leaf() map[string]interface{} {
+	if g.r.Intn(30) == 0 {
+		return map[string]interface{}{} // the empty schema: a legal target and a legal member
+	}
 	g.uniq++
 	l := map[string]interface{}{"type": "string", "description": fmt.Sprintf("leaf%d", g.uniq)}
 	switch g.r.Intn(12) {
